@@ -2,20 +2,11 @@
    the mixer. *)
 From Coq Require Import ZArith List Bool Lia Arith.
 From Common Require Import Res.
-From Routing Require Import Model Proofs_Tables Proofs_Group Proofs_Merge Proofs_Library.
+From Routing Require Import Model Scheme Obs Spec Proofs_Tables Proofs_Group Proofs_Merge Proofs_Library.
 Import ListNotations.
 Open Scope Z_scope.
 
-Definition answer_of (P : list backend) (mx : option mixer) (w : who) (m : meth) (a : arg) : resp :=
-  match w with
-  | Bk b => ans P b m a
-  | Mx => match mx with Some f => f m a | None => RNone end
-  end.
 
-(* the only exceptions of a provider that the core lets through *)
-Definition raise_excuse (w : who) (m : meth) (k : kind) : Prop :=
-  k = KBase \/
-  ((exists b, w = Bk b) /\ ((m = MSearch /\ k = KLookup) \/ (m = PSave /\ k = KAssertion))).
 
 Lemma fold_res_fail {A B} (f : A -> B -> res kind A) l : forall a,
   match fold_res f l a with
@@ -131,16 +122,6 @@ Proof.
       injection H as <- <-. exact I.
 Qed.
 
-(* ------------------------------------------------------------------ T5a: what can leave a core request *)
-
-Definition raise_shape (P : list backend) (mx : option mixer) (log : list call) (out : outcome) : Prop :=
-  match out with
-  | Ok _ => True
-  | Raise k =>
-      (k = KValidation /\ log = []) \/
-      exists w m a, In (w, m, a) log /\ answer_of P mx w m a = RRaise k /\ raise_excuse w m k
-  | Diverge => False
-  end.
 
 Lemma fold_raise_shape {A} (step : A -> nat -> res kind A) (mk : nat -> call) (fn : A -> value)
       P mx bs a0 (m : meth) (a : arg) :
